@@ -91,7 +91,8 @@ func glCalibration(c *ev.Ctx, report bool) bool {
 	}
 	var names []string
 	for _, d := range prog.Decls {
-		if d.Kind == "def" && (strings.HasPrefix(d.Name, "test") || strings.HasPrefix(d.Name, "failing_test")) {
+		// the write-ahead log on the disk FFI (disabled upstream for speed) is part of the long calibration only
+		if d.Kind == "def" && (strings.HasPrefix(d.Name, "test") || strings.HasPrefix(d.Name, "failing_test") || (report && d.Name == "disabled_testWal")) {
 			names = append(names, d.Name)
 		}
 	}
